@@ -3,7 +3,7 @@
 fn main() {
     ecverif::microrun::main_for(
         ecverif::microrun::Profile { key: "c06m", drops: true, timeouts: true, tx_fail: true, rx_noise: true, only: &[] },
-        150,
+        300,
         4000,
     );
 }
